@@ -128,10 +128,13 @@ func hostByHashing(pool HostPool, s string) *UpstreamHost {
 	poolLen := uint32(len(pool))
 	index := hash(s) % poolLen
 	for i := uint32(0); i < poolLen; i++ {
-		index += i
-		host := pool[index%poolLen]
+		host := pool[index]
 		if host.Available() {
 			return host
+		}
+		index++
+		if index == poolLen {
+			index = 0
 		}
 	}
 	return nil
